@@ -377,6 +377,10 @@ def r5_no_back_reference(m):
             f = m.method(k, meth.name)
             # names that may hold an item
             items = {a.arg for a in meth.args.args if a.arg in ("item", "newitem", "citem")}
+            # locals bound to a reader object (FortranFileReader(...), self.reader) and attributes that already hold items
+            readers = {t.id for n_ in A.body_nodes(meth) if isinstance(n_, ast.Assign) and isinstance(n_.value, ast.Call)
+                       and A.text(n_.value.func).endswith("Reader") for t in n_.targets if isinstance(t, ast.Name)}
+            kept = set()
             changed = True
 
             def is_item(v):
@@ -393,6 +397,17 @@ def r5_no_back_reference(m):
                         return True
                 if isinstance(v, ast.IfExp):
                     return is_item(v.body) or is_item(v.orelse)
+                # a collection of items: everything a (nested) reader delivers -- list(reader), [i for i in reader], reversed(...)
+                if isinstance(v, ast.Call) and A.dotted(v.func) in ("list", "tuple", "reversed", "iter", "deque") and v.args:
+                    a0 = v.args[0]
+                    if isinstance(a0, ast.Name) and (a0.id in readers or a0.id in items):
+                        return True
+                    return is_item(a0)
+                if isinstance(v, (ast.ListComp, ast.GeneratorExp)) and v.generators and isinstance(v.generators[0].iter, ast.Name) \
+                        and v.generators[0].iter.id in readers:
+                    return True
+                if isinstance(v, ast.Subscript):
+                    return is_item(v.value) or (isinstance(v.value, ast.Attribute) and A.text(v.value.value) == "self" and v.value.attr in kept)
                 return False
             while changed:
                 changed = False
@@ -415,6 +430,7 @@ def r5_no_back_reference(m):
                             attr, val = tt.attr, n.value
                 if attr is None:
                     continue
+                kept.add(attr)
                 r.instances += 1
                 ok = attr in allowed
                 r.ob(ok, "%s.%s: item `%s` stored in self.%s" % (c["name"], meth.name, A.text(val)[:30], attr))
